@@ -10,7 +10,7 @@ from lib import vlib, deccheck
 
 KINDS = {"unexpected call", "missing call", "no progress", "rasteriser shape",
          "prefix (inside instruction)", "prefix (at boundary)", "prefix (after error)",
-         "outcome differs", "call differs"}
+         "outcome differs", "call differs", "panic while rendering through raster/vec"}
 
 
 def run(ctx):
